@@ -907,6 +907,26 @@ func (e *Enc) evalCall(sc *Scope, n *CCall, hint types.Type) Val {
 			}
 		}
 	}
+	// a function-typed parameter under `opt dyncalls=uf`: the same uninterpreted function as in the code
+	if id, ok := n.Fun.(*CIdent); ok && sc.fr != nil && e.contract != nil && e.contract.Opts["dyncalls"] == "uf" {
+		for _, p := range sc.fr.fn.Params {
+			sig, isSig := p.Type().Underlying().(*types.Signature)
+			if p.Name() != id.Name || !isSig || len(n.Args) != sig.Params().Len() {
+				continue
+			}
+			var args []Val
+			for i, a := range n.Args {
+				v := e.eval(sc, a, sig.Params().At(i).Type())
+				v.Typ = sig.Params().At(i).Type()
+				args = append(args, v)
+			}
+			rs := e.pureUF("dyn_"+p.Name(), args, sig)
+			if len(rs) == 1 {
+				return rs[0]
+			}
+			return Val{Typ: sig.Results(), Tup: rs}
+		}
+	}
 	// call of a real (pure) Go function or method, evaluated by inlining its SSA in the scope's state
 	fn, recv := e.resolveCallee(sc, n.Fun)
 	if fn == nil {
